@@ -86,7 +86,7 @@ func body(r *vf.Run) {
 		return
 	}
 	r.Assume("trusted base: archive/tar, internal/gen (tar model), internal/ocistack (ApplyOCI / ExpectedLower / OverlayMerge, cross-checked by its own test on 20000 stacks), internal/memreg, estargz.Build as blob producer, go-fuse, the Linux kernel (FUSE, overlayfs), containerd's overlayutils.NeedsUserXAttr")
-	r.Assume("domain: no layer carries both a whiteout for a name and a directory of that name (excluded by the statement); no genuine 0/0 character device entries; no duplicate names within a layer; no explicit root entry; an opaque marker in the layer root only in the lowest layer (the kernel ignores the opaque xattr of a lowerdir root)")
+	r.Assume("domain: no layer carries both a whiteout for a name and a directory of that name (excluded by the statement); no duplicate names within a layer other than an identical repeated directory entry; no explicit root entry; a real 0/0 character device entry counts as what overlayfs makes of it (a deletion) when the tars are applied; an opaque marker in the layer root only in the lowest layer (the kernel ignores the opaque xattr of a lowerdir root)")
 	r.Assume("slack: a whiteout whose target name is itself hidden (.wh..wh.X, .wh.<landmark> in the root) may be listed or not (clause 1), but listing and lookup must agree (clause 2); directory mode/owner/mtime are compared only where the highest layer containing the directory describes it explicitly; attributes of synthesised whiteouts other than type and device number are not judged; '.'/'..' and the state directory name are exempt from clause 2")
 	l2Stage(r)
 	r.Logf("L2 stage done")
